@@ -428,6 +428,10 @@ def render_def(prog, i, skip_names=()):
         ps.append("*")
         ps += ["%s=%s" % (p, dlit(d)) for p, d in nd["kwonly"]]
     names = [p for p, _ in nd["params"]] + [p for p, _ in nd["kwonly"]]
+    if nd.get("cbdefault") is not None:  # a memento function of the same module is the default value of a parameter
+        if not nd["kwonly"]:
+            ps.append("*")
+        ps.append("cb_=%s" % prog["nodes"][nd["cbdefault"]]["name"])
     L = []
     if nd["kind"] == "memento":
         L.append("@m.memento_function" + ("(version=%r)" % nd["version"] if nd["version"] is not None else ""))
@@ -453,6 +457,8 @@ def render_def(prog, i, skip_names=()):
         L.append("    r += %s" % read_expr(prog["vars"][rd["v"]], rd["form"]))
     for c in nd["calls"]:
         L.append("    r += %s" % call_expr(prog, nd, c, "x + 1"))
+    if nd.get("cbdefault") is not None:
+        L.append("    r += cb_(x + 1)")
     ne = nd["nested"]
     if ne:
         tp = ne.get("param") or "t_"  # the name the nested scope binds
@@ -531,6 +537,16 @@ def render_module(prog, mod, twin=False, order=None, skip=()):
     idx = [i for i, nd in enumerate(prog["nodes"]) if nd["mod"] == mod]
     if order is not None:
         idx = sorted(idx, key=lambda i: order.index(i))
+    for _ in range(len(idx)):  # a function used as a default value is defined before the function that uses it
+        moved = False
+        for i in list(idx):
+            t = prog["nodes"][i].get("cbdefault")
+            if t is not None and t in idx and idx.index(t) > idx.index(i):
+                idx.remove(t)
+                idx.insert(idx.index(i), t)
+                moved = True
+        if not moved:
+            break
     for i in idx:
         nd = prog["nodes"][i]
         if nd["kind"] == "product" and nd.get("of") is not None and prog["nodes"][nd["of"]]["kind"] == "product":
@@ -623,6 +639,8 @@ def cell_statements(old, new, desc, twin=False):
 def callees(prog, i, include_hidden=True):
     nd = prog["nodes"][i]
     out = [c["t"] for c in nd["calls"] if include_hidden or c["form"] != "hidden"]
+    if nd.get("cbdefault") is not None:
+        out.append(nd["cbdefault"])
     if nd["nested"] and nd["nested"]["call"] is not None:
         out.append(nd["nested"]["call"])
     return out
